@@ -314,6 +314,16 @@ def rule_take(ctx):
                 if not good:
                     ctx.violated('R2', fi, e.node, 'each variable is indexed only along its own dimensions ({dim: ... for dim in self[nm].dims})', node=e.node)
                     continue
+                # a 0-d variable has no dimension to index: DimArray.take hands back the bare scalar, which the insertion re-wraps without the variable's
+                # metadata (and dtype): such variables must be carried over as they are
+                zero_d = [pol for a, pol in e.guards if ('ndim' in T.show(a) or 'dims' in T.show(a)) and T.contains(a, ('sub', SELF, nm))]
+                evf = run(ctx, fi, mode='fork', max_paths=20000, oracle=lambda a, st: (True if a == T.mkcmp('is', P_('names'), T.CONST_NONE) else None))
+                guarded = any(any(('ndim' in T.show(a) or 'dims' in T.show(a) or 'shape' in T.show(a)) and T.contains(a, ('sub', SELF, e2.b)) for a, pol in e2.guards)
+                              for q in evf.paths for e2 in q.events if e2.kind == 'store_sub' and e2.loops and isinstance(e2.c, tuple) and e2.c[0] == 'call' and T.call_name(e2.c) == 'take')
+                if not guarded:
+                    ctx.violated('R5', fi, '0-d variables re-wrapped', 'every variable goes through self[nm].take(...): for a 0-d variable that is a bare scalar, and data[nm] = <scalar> builds a '
+                                 'new array without the variable\'s metadata (ds.ix[...][\'s\'].attrs is {}); 0-d variables must be left unchanged', node=e.node)
+                    continue
                 ok = True
         calls = [e.a for e in p.calls('_get_indices')]
         if calls:
